@@ -41,6 +41,21 @@ fn sorted_norm(rows: &[Vec<V>]) -> Vec<Vec<V>> {
     r
 }
 
+/// The model-vs-observation difference (used when a call failed and must not have changed anything).
+fn obs_after_changes_diff(s: &Session, o: &crate::observe::Obs) -> Option<String> {
+    for (n, t) in &s.model.tables {
+        match o.tables.get(n) {
+            None => return Some(format!("table {:?} is gone", n)),
+            Some(ot) => {
+                if sorted_norm(&ot.rows) != sorted_norm(&t.rows) {
+                    return Some(format!("rows of table {:?} changed", n));
+                }
+            }
+        }
+    }
+    None
+}
+
 fn run_case(rep: &mut Report, seed: u64, case: u64, force: Option<&'static str>, thorough: bool) {
     let mut rng = Rng::derive(seed, 2, case);
     let cfg = AbsCfg { max_tables: if thorough { 6 } else { 4 }, max_cols: if thorough { 12 } else { 6 }, max_rows: if thorough { 40 } else { 16 } };
@@ -128,6 +143,36 @@ fn check(rep: &mut Report, db: &AbsDb, rng: &mut Rng, case: u64) -> Result<(), F
             .map_err(|f| Fail { clause: format!("modify/{}", f.clause), what: f.what })?;
         n_changes += 1;
     }
+    // table creation and removal on a file the library did not write
+    let mut dropped: Option<String> = None;
+    let mut added: Option<String> = None;
+    if case % 3 == 0 {
+        let cols = vec![crate::types::ColDef::new("Id", crate::types::CT::Int16).key(), crate::types::ColDef::new("Txt", crate::types::CT::Str(40)).nullable()];
+        let name = format!("Added{}", case % 1000);
+        s.apply(&Op::CreateTable { name: name.clone(), cols }, &mon, rep).map_err(|f| Fail { clause: format!("modify/{}", f.clause), what: f.what })?;
+        if !s.model.tables.contains_key(&name) {
+            return Err(Fail { clause: "modify/create-table-refused".into(), what: format!("create_table({:?}) was refused on an independently encoded database", name) });
+        }
+        s.apply(&Op::Insert { table: name.clone(), rows: vec![vec![V::Int(1), V::s("t0x1 added")], vec![V::Int(2), V::Null]] }, &mon, rep)
+            .map_err(|f| Fail { clause: format!("modify/{}", f.clause), what: f.what })?;
+        added = Some(name);
+        n_changes += 2;
+    }
+    if case % 3 == 1 {
+        if let Some(victim) = user.iter().find(|u| Some(*u) != touched.as_ref()) {
+            s.apply(&Op::DropTable { name: victim.clone() }, &mon, rep).map_err(|f| Fail { clause: format!("modify/{}", f.clause), what: f.what })?;
+            if s.model.tables.contains_key(victim) {
+                // the library refused to drop an existing table: then nothing may have changed
+                let o = s.observe().map_err(|f| Fail { clause: format!("modify/{}", f.clause), what: f.what })?;
+                if let Some(d) = obs_after_changes_diff(&s, &o) {
+                    return Err(Fail { clause: "modify/drop-table-failed-and-changed".into(), what: format!("drop_table({:?}) returned an error on an independently encoded database and changed it: {}", victim, d) });
+                }
+                return Err(Fail { clause: "modify/drop-table-refused".into(), what: format!("drop_table({:?}) was refused on an independently encoded database", victim) });
+            }
+            dropped = Some(victim.clone());
+            n_changes += 1;
+        }
+    }
     rep.add("api_changes", n_changes);
     // close, then decode the saved bytes independently
     let pkg = s.pkg.take().unwrap();
@@ -142,8 +187,27 @@ fn check(rep: &mut Report, db: &AbsDb, rng: &mut Rng, case: u64) -> Result<(), F
     if let Some(p) = raw2.problems.first() {
         return Err(Fail { clause: "saved/malformed".into(), what: format!("independent decoder on the saved file: {}", p) });
     }
+    if let Some(a) = &added {
+        let want = sorted_norm(&s.model.tables[a].rows);
+        if raw2.table_values(a).map(|r| sorted_norm(&r)) != Some(want) {
+            return Err(Fail { clause: "saved/added-table".into(), what: format!("table {:?} created through the API does not decode to its rows in the saved file", a) });
+        }
+        rep.count("tables_added_to_foreign_files");
+    }
+    if let Some(dn) = &dropped {
+        if raw2.tables.contains_key(dn) || raw2.table_streams.contains_key(dn) {
+            return Err(Fail { clause: "saved/dropped-table-still-there".into(), what: format!("dropped table {:?} is still in the saved file", dn) });
+        }
+        rep.count("tables_dropped_from_foreign_files");
+    }
     for (n, t) in &raw.tables {
+        if Some(n) == dropped.as_ref() {
+            continue;
+        }
         if is_catalog(n) {
+            if added.is_some() || dropped.is_some() {
+                continue; // catalog rows legitimately changed; the per-table comparisons below cover the rest
+            }
             if raw.table_values(n).map(|r| sorted_norm(&r)) != raw2.table_values(n).map(|r| sorted_norm(&r)) {
                 return Err(Fail { clause: "saved/catalog-changed".into(), what: format!("catalog table {:?} changed although no table was created or dropped", n) });
             }
